@@ -261,6 +261,13 @@ func main() {
 	r.Replayer("two", replay)
 	r.Replayer("multi", replay)
 	r.MaybeReplay()
+	// validate the oracle itself against the maintainers' compliance stories
+	nOK, nSkip, verr := bqlm.ValidateAgainstStories("/repo/examples/compliance")
+	if verr != nil {
+		common.Machinery("MODEL-INVALID: the reference evaluator disagrees with a compliance story: %v", verr)
+	}
+	r.Set("compliance_story_assertions_reproduced_by_reference_evaluator", nOK)
+	r.Set("compliance_story_assertions_outside_the_model", nSkip)
 	st := &stats{}
 	runOneClause(r, st)
 	runTwoClause(r, st)
